@@ -1,4 +1,879 @@
-# leaves of property C20 regenerated from /repo's text on every run
+"""Leaf specs for C20 (importers), regenerated from /repo's text on every run.
+
+Native py2lean leaves (scalar arithmetic, translated straight from the source text):
+  dmDof, dmNormEntry, hrfPeakScale     io/fmriprep.py  make_design_matrix
+  regIndexBetas, regIndexResiduals     io/spm.py       get_betas / get_residuals
+
+Derived leaves.  The importers are mostly *string* code: separators, entity keys, the order in
+which entities are written, the dict of entities a look-up replaces, slice bounds.  py2lean only
+knows numbers, so this module first derives — from the current source text, by matching the
+exact statement shapes with Python's `ast` — every such constant and writes it as a tiny Python
+function `def name(): return <int>` into harness/leaves/_C20_derived.py; py2lean then translates
+those functions as usual.  Encodings:
+  character            its code point                                   ('-' -> 45)
+  string               big-endian bytes behind a leading 0x01 byte      ('sub' -> 0x01737562)
+  list of strings      the ','-joined string                            ('ses,task,run')
+  python index         the integer (negative indices by their absolute value, name says so)
+  look-up dict entry   0 = key absent (inherit), 2 = None, 3 = the `desc` argument,
+                       4 = the `suffix` argument, otherwise the encoded string literal
+`Rsa.Core.C20Syntax` decodes them (`natToStr`), the model functions of namespace
+`Rsa.Importers.Src` are written in terms of them, and `Rsa/Lemmas/C20Syntax.lean` proves
+`Src.f = f` for the literal model the property theorems were proved about — so an edit of a
+separator, a key, the entity order or a look-up dict breaks `bids_roundtrip`,
+`lookup_changes_only`, `mne_descriptors`, … instead of relying on the generator.
+
+Each derivation fails closed: an unexpected statement shape gives a function calling
+`__underivable__`, which py2lean reports as an untranslatable leaf (= broken obligation, the
+failing-input search runs).  Nothing is cached; the derived file is rewritten on every run.
+"""
+import ast
+import os
+
+SRC = os.environ.get('RSA_REPO_SRC', '/repo/src/rsatoolbox')
+HERE = os.path.dirname(os.path.abspath(__file__))
+DERIVED = os.path.join(HERE, '_C20_derived.py')
+
+ENT_KEYS = ['sub', 'ses', 'run', 'task', 'space', 'desc']
+ALL_ENTS = ['derivative', 'sub', 'ses', 'task', 'run', 'space', 'desc', 'modality', 'suffix', 'ext']
+
+
+class Underivable(Exception):
+    pass
+
+
+def enc(s):
+    if not isinstance(s, str):
+        raise Underivable(f'not a string literal: {s!r}')
+    return int.from_bytes(b'\x01' + s.encode('ascii'), 'big')
+
+
+def ch(s):
+    if not (isinstance(s, str) and len(s) == 1):
+        raise Underivable(f'not a single character: {s!r}')
+    return ord(s)
+
+
+def need(cond, msg):
+    if not cond:
+        raise Underivable(msg)
+
+
+_TREES = {}
+
+
+def _tree(path):
+    if path not in _TREES:
+        _TREES[path] = ast.parse(open(os.path.join(SRC, path)).read())
+    return _TREES[path]
+
+
+def _func(path, name, cls=None):
+    tree = _tree(path)
+    scope = tree
+    if cls is not None:
+        hits = [n for n in ast.walk(tree) if isinstance(n, ast.ClassDef) and n.name == cls]
+        need(len(hits) == 1, f'{path}: class {cls} not found')
+        scope = hits[0]
+    hits = [n for n in ast.walk(scope) if isinstance(n, ast.FunctionDef) and n.name == name]
+    need(len(hits) == 1, f'{path}: function {name} found {len(hits)} times')
+    return hits[0]
+
+
+def _body(fn):
+    """statements without the docstring"""
+    b = list(fn.body)
+    if b and isinstance(b[0], ast.Expr) and isinstance(b[0].value, ast.Constant) \
+            and isinstance(b[0].value.value, str):
+        b = b[1:]
+    return b
+
+
+def u(node):
+    return ast.unparse(node)
+
+
+def const(node, typ=None):
+    need(isinstance(node, ast.Constant), f'`{u(node)}` is not a literal')
+    if typ is not None:
+        need(isinstance(node.value, typ) and not isinstance(node.value, bool),
+             f'`{u(node)}` is not a {typ.__name__} literal')
+    return node.value
+
+
+def fstring_parts(node):
+    """JoinedStr -> list of ('lit', str) | ('var', source text)"""
+    if isinstance(node, ast.Constant) and isinstance(node.value, str):
+        return [('lit', node.value)]
+    need(isinstance(node, ast.JoinedStr), f'`{u(node)}` is not an f-string')
+    out = []
+    for v in node.values:
+        if isinstance(v, ast.Constant):
+            out.append(('lit', v.value))
+        else:
+            need(isinstance(v, ast.FormattedValue) and v.conversion == -1 and v.format_spec is None,
+                 f'formatted value with conversion in `{u(node)}`')
+            out.append(('var', u(v.value)))
+    return out
+
+
+def method_call(node, obj=None, name=None, nargs=None):
+    """`obj.name(args)` -> (object node, args)"""
+    need(isinstance(node, ast.Call) and isinstance(node.func, ast.Attribute) and not node.keywords,
+         f'`{u(node)}` is not a method call')
+    if name is not None:
+        need(node.func.attr == name, f'`{u(node)}` is not a call of .{name}()')
+    if obj is not None:
+        need(u(node.func.value) == obj, f'`{u(node)}` is not a method of {obj}')
+    if nargs is not None:
+        need(len(node.args) == nargs, f'`{u(node)}` does not have {nargs} argument(s)')
+    return node.func.value, node.args
+
+
+def index_of(node):
+    """constant integer subscript -> int"""
+    need(isinstance(node, ast.Subscript), f'`{u(node)}` is not a subscript')
+    s = node.slice
+    if isinstance(s, ast.UnaryOp) and isinstance(s.op, ast.USub):
+        return -const(s.operand, int)
+    return const(s, int)
+
+
+def slice_of(node):
+    """`x[a:b]` -> (a, b) with None for an absent bound (constant ints only)"""
+    need(isinstance(node, ast.Subscript) and isinstance(node.slice, ast.Slice)
+         and node.slice.step is None, f'`{u(node)}` is not a plain slice')
+
+    def b(x):
+        if x is None:
+            return None
+        if isinstance(x, ast.UnaryOp) and isinstance(x.op, ast.USub):
+            return -const(x.operand, int)
+        return const(x, int)
+    return b(node.slice.lower), b(node.slice.upper)
+
+
+# ------------------------------------------------------------------ numeric derivations
+
+def linspace_entry(path, func, target, index_name, subs=None):
+    """entry `index_name` of `target = numpy.linspace(start, stop, num)`:
+    numpy computes step = (stop - start) / (num - 1), y = arange(num) * step + start"""
+    fn = _func(path, func)
+    hits = [n for n in ast.walk(fn) if isinstance(n, ast.Assign) and len(n.targets) == 1
+            and u(n.targets[0]) == target]
+    need(len(hits) == 1, f'expected one assignment to {target}, found {len(hits)}')
+    call = hits[0].value
+    need(isinstance(call, ast.Call) and u(call.func) in ('numpy.linspace', 'np.linspace')
+         and len(call.args) == 3 and not call.keywords, f'{target} is not linspace(start, stop, num)')
+    start, stop, num = (u(a) for a in call.args)
+    for k, v in (subs or {}).items():
+        start, stop, num = (t.replace(k, v) for t in (start, stop, num))
+    return f'({index_name} * ((({stop}) - ({start})) / (({num}) - 1)) + ({start}))'
+
+
+def mne_slice_start():
+    fn = _func('io/mne.py', 'descriptors_from_bids_filename')
+    hits = [n for n in ast.walk(fn) if isinstance(n, ast.Subscript) and isinstance(n.slice, ast.Slice)]
+    need(len(hits) == 1, 'expected one slice in descriptors_from_bids_filename')
+    sl = hits[0]
+    need(u(sl.value) == 'segment' and sl.slice.upper is None and sl.slice.step is None
+         and sl.slice.lower is not None, f'`{u(sl)}` is not segment[<start>:]')
+    return u(sl.slice.lower).replace('len(dname)', 'len_dname')
+
+
+# ------------------------------------------------------------------ BIDS: parsing
+
+def bids_find_entity():
+    """BidsFile._findEntity: for seg in in_fname.split(S): if seg.startswith(f'{entity}K'):
+    return seg.replace(f'{entity}K', '')"""
+    fn = _func('io/bids.py', '_findEntity', 'BidsFile')
+    need([a.arg for a in fn.args.args] == ['self', 'entity', 'in_fname'], 'signature of _findEntity')
+    loops = [s for s in _body(fn) if isinstance(s, ast.For)]
+    rest = [s for s in _body(fn) if not isinstance(s, ast.For)]
+    need(len(loops) == 1 and all(isinstance(s, ast.Expr) for s in rest),
+         '_findEntity is not a single loop')
+    loop = loops[0]
+    need(not loop.orelse and isinstance(loop.target, ast.Name), 'loop shape')
+    var = loop.target.id
+    _, args = method_call(loop.iter, obj='in_fname', name='split', nargs=1)
+    seg_sep = ch(const(args[0], str))
+    need(len(loop.body) == 1 and isinstance(loop.body[0], ast.If) and not loop.body[0].orelse,
+         'loop body is not a single if')
+    test, body = loop.body[0].test, loop.body[0].body
+    _, targs = method_call(test, obj=var, name='startswith', nargs=1)
+    need(len(body) == 1 and isinstance(body[0], ast.Return), 'if body is not a single return')
+    _, rargs = method_call(body[0].value, obj=var, name='replace', nargs=2)
+    need(const(rargs[1], str) == '', 'the prefix is not replaced by the empty string')
+    p1, p2 = fstring_parts(targs[0]), fstring_parts(rargs[0])
+    need(p1 == p2 and len(p1) == 2 and p1[0] == ('var', 'entity') and p1[1][0] == 'lit',
+         f'prefix is not f"{{entity}}<sep>": {p1} / {p2}')
+    return {'p_seg_sep': seg_sep, 'p_key_sep': ch(p1[1][1])}
+
+
+def bids_deconstruct():
+    fn = _func('io/bids.py', '_deconstruct', 'BidsFile')
+    out = {}
+    stmts = _body(fn)
+    src = [u(s) for s in stmts]
+    need(src[0] == 'parts = normpath(self.relpath).split(os.sep)', f'first statement: {src[0]}')
+    need(src[1] == 'fname = basename(self.relpath)', f'second statement: {src[1]}')
+    # derivative
+    s = stmts[2]
+    need(isinstance(s, ast.If) and isinstance(s.test, ast.Compare) and len(s.test.ops) == 1
+         and isinstance(s.test.ops[0], ast.Eq), 'derivative test')
+    need(u(s.test.left.value) == 'parts' and index_of(s.test.left) == 0, 'derivative test is not on parts[0]')
+    out['p_deriv_dir'] = enc(const(s.test.comparators[0], str))
+    need(len(s.body) == 2 and len(s.orelse) == 1, 'derivative branches')
+    a, b = s.body
+    need(isinstance(a, ast.Assign) and u(a.targets[0]) == 'self.derivative'
+         and u(a.value.value) == 'parts', 'self.derivative = parts[k]')
+    out['p_deriv_idx'] = index_of(a.value)
+    need(isinstance(b, ast.Assign) and u(b.targets[0]) == 'parts' and u(b.value.value) == 'parts',
+         'parts = parts[k:]')
+    lo, hi = slice_of(b.value)
+    need(hi is None and lo is not None and lo >= 0, 'parts = parts[k:]')
+    out['p_deriv_skip'] = lo
+    need(u(s.orelse[0]) == 'self.derivative = None', 'else branch of the derivative test')
+    # entities, modality, suffix, ext: order matters only for `ses` before the modality block
+    seen = {}
+    ses_line = mod_line = None
+    for i, s in enumerate(stmts[3:], 3):
+        if isinstance(s, ast.Assign) and len(s.targets) == 1 and u(s.targets[0]).startswith('self.') \
+                and isinstance(s.value, ast.Call) and u(s.value.func) == 'self._findEntity':
+            attr = u(s.targets[0])[5:]
+            need(len(s.value.args) == 2 and u(s.value.args[1]) == 'fname' and not s.value.keywords,
+                 f'_findEntity call for {attr}')
+            need(attr not in seen, f'{attr} assigned twice')
+            seen[attr] = enc(const(s.value.args[0], str))
+            if attr == 'ses':
+                ses_line = i
+        elif isinstance(s, ast.If):
+            need(mod_line is None, 'second if block')
+            mod_line = i
+            t = s.test
+            need(isinstance(t, ast.Compare) and u(t.left) == 'len(parts)' and len(t.ops) == 1
+                 and isinstance(t.ops[0], ast.Gt) and not s.orelse, 'modality guard is not len(parts) > k')
+            out['p_mod_minlen'] = const(t.comparators[0], int)
+            need(len(s.body) == 1 and isinstance(s.body[0], ast.If), 'modality block')
+            inner = s.body[0]
+            need(u(inner.test) == 'self.ses' and len(inner.body) == 1 and len(inner.orelse) == 1,
+                 'modality is not chosen by self.ses')
+            for key, st in (('p_mod_idx_ses', inner.body[0]), ('p_mod_idx', inner.orelse[0])):
+                need(isinstance(st, ast.Assign) and u(st.targets[0]) == 'self.modality'
+                     and u(st.value.value) == 'parts', 'self.modality = parts[k]')
+                out[key] = index_of(st.value)
+    need(sorted(seen) == sorted(ENT_KEYS), f'entities parsed: {sorted(seen)}')
+    need(ses_line is not None and mod_line is not None and ses_line < mod_line,
+         'self.ses must be parsed before the modality is chosen')
+    for k in ENT_KEYS:
+        out['p_key_' + k] = seen[k]
+    tail = [u(s) for s in stmts if isinstance(s, ast.Assign) and u(s.targets[0]) in
+            ('suffix_ext', 'self.suffix', 'self.ext')]
+    need(len(tail) == 3, 'suffix / ext statements')
+    asg = {u(s.targets[0]): s.value for s in stmts if isinstance(s, ast.Assign)
+           and u(s.targets[0]) in ('suffix_ext', 'self.suffix', 'self.ext')}
+    v = asg['suffix_ext']
+    need(index_of(v) == -1, 'suffix_ext is not the last segment')
+    _, a = method_call(v.value, obj='fname', name='split', nargs=1)
+    out['p_sfx_seg_sep'] = ch(const(a[0], str))
+    v = asg['self.suffix']
+    need(index_of(v) == 0, 'suffix is not the first dotted part')
+    _, a = method_call(v.value, obj='suffix_ext', name='split', nargs=1)
+    out['p_ext_sep'] = ch(const(a[0], str))
+    v = asg['self.ext']
+    jo, ja = method_call(v, name='join', nargs=1)
+    need(ch(const(jo, str)) == out['p_ext_sep'], 'ext is joined with another separator')
+    lo, hi = slice_of(ja[0])
+    need((lo, hi) == (1, None), 'ext is not split[1:]')
+    _, a = method_call(ja[0].value, obj='suffix_ext', name='split', nargs=1)
+    need(ch(const(a[0], str)) == out['p_ext_sep'], 'ext is split on another separator')
+    return out
+
+
+# ------------------------------------------------------------------ BIDS: formatting
+
+def _cond_list(value):
+    """`[elts] if X else []` -> (elts, X)"""
+    need(isinstance(value, ast.IfExp) and isinstance(value.body, ast.List)
+         and isinstance(value.orelse, ast.List) and not value.orelse.elts
+         and isinstance(value.test, ast.Name), f'`{u(value)}` is not `[..] if x else []`')
+    return value.body.elts, value.test.id
+
+
+def bids_replace():
+    fn = _func('io/bids.py', '_replace', 'BidsLayout')
+    inner = [s for s in _body(fn) if isinstance(s, ast.FunctionDef)]
+    need(len(inner) == 1 and inner[0].name == 'replace_or_inherit', 'replace_or_inherit helper')
+    need([u(s) for s in inner[0].body] ==
+         ['if entity in replace_entities:\n    return replace_entities[entity]',
+          'return getattr(base, entity)'], 'replace_or_inherit body changed')
+    out = {}
+    bound = {}
+    dirs, names = [], []
+    key_seps, first = set(), None
+    done = False
+    for s in _body(fn):
+        if isinstance(s, ast.FunctionDef):
+            continue
+        need(not done, 'statement after return')
+        if isinstance(s, ast.Return):
+            need(u(s.value) == 'join(*path_segs)', f'return: {u(s.value)}')
+            done = True
+            continue
+        if isinstance(s, ast.Assign) and len(s.targets) == 1 and isinstance(s.targets[0], ast.Name):
+            tgt = s.targets[0].id
+            if isinstance(s.value, ast.Call) and u(s.value.func) == 'replace_or_inherit':
+                need(len(s.value.args) == 2 and u(s.value.args[0]) == 'base', 'replace_or_inherit call')
+                key = const(s.value.args[1], str)
+                need(tgt == key and tgt not in bound, f'{tgt} = replace_or_inherit(base, {key!r})')
+                bound[tgt] = key
+                continue
+            if tgt == 'path_segs':
+                need(u(s.value) == '[]' and not dirs, 'path_segs initialisation')
+                continue
+            if tgt == 'fname_segs':
+                need(isinstance(s.value, ast.List) and len(s.value.elts) == 1 and first is None,
+                     'fname_segs initialisation')
+                p = fstring_parts(s.value.elts[0])
+                need(len(p) == 2 and p[0][0] == 'lit' and p[1][0] == 'var' and p[1][1] in bound
+                     and len(p[0][1]) >= 2, f'first name segment {p}')
+                first = (p[0][1][:-1], p[1][1])
+                key_seps.add(p[0][1][-1])
+                continue
+        if isinstance(s, ast.AugAssign) and isinstance(s.op, ast.Add) and isinstance(s.target, ast.Name):
+            tgt = s.target.id
+            if tgt == 'path_segs' and isinstance(s.value, ast.List):
+                need(u(s.value) == "['_'.join(fname_segs)]" or
+                     (len(s.value.elts) == 1 and isinstance(s.value.elts[0], ast.Call)
+                      and u(s.value.elts[0].args[0]) == 'fname_segs'), 'file name appended to the path')
+                jo, _ = method_call(s.value.elts[0], name='join', nargs=1)
+                out['f_seg_sep'] = ch(const(jo, str))
+                continue
+            if tgt == 'fname_segs' and isinstance(s.value, ast.List):
+                need(len(s.value.elts) == 1, 'last name segment')
+                p = fstring_parts(s.value.elts[0])
+                need(len(p) == 3 and p[0] == ('var', 'suffix') and p[1][0] == 'lit'
+                     and p[2] == ('var', 'ext') and 'suffix' in bound and 'ext' in bound,
+                     f'last name segment {p}')
+                out['f_ext_sep'] = ch(p[1][1])
+                names.append(None)            # marks the end
+                continue
+            elts, cond = _cond_list(s.value)
+            need(cond in bound, f'condition {cond} is not an inherited entity')
+            if tgt == 'path_segs':
+                need(names == [] and first is None, 'directory after the file name started')
+                if len(elts) == 2:
+                    need(u(elts[1]) == cond, f'directory pair for {cond}')
+                    dirs.append((cond, 'pair', const(elts[0], str)))
+                elif len(elts) == 1 and u(elts[0]) == cond:
+                    dirs.append((cond, 'bare', ''))
+                else:
+                    need(len(elts) == 1, f'directory for {cond}')
+                    p = fstring_parts(elts[0])
+                    need(len(p) == 2 and p[0][0] == 'lit' and p[1] == ('var', cond)
+                         and len(p[0][1]) >= 2, f'directory for {cond}: {p}')
+                    dirs.append((cond, 'keyed', p[0][1][:-1]))
+                    key_seps.add(p[0][1][-1])
+                continue
+            if tgt == 'fname_segs':
+                need(first is not None and None not in names, 'name segment out of place')
+                need(len(elts) == 1, f'name segment for {cond}')
+                p = fstring_parts(elts[0])
+                need(len(p) == 2 and p[0][0] == 'lit' and p[1] == ('var', cond) and len(p[0][1]) >= 2,
+                     f'name segment for {cond}: {p}')
+                names.append((cond, p[0][1][:-1]))
+                key_seps.add(p[0][1][-1])
+                continue
+        raise Underivable(f'unexpected statement in _replace: {u(s)[:60]}')
+    need(done and names and names[-1] is None, '_replace does not end with <suffix>.<ext>')
+    names = names[:-1]
+    need(sorted(bound) == sorted(ALL_ENTS), f'entities inherited: {sorted(bound)}')
+    need(len(key_seps) == 1, f'several key separators {key_seps}')
+    out['f_key_sep'] = ch(key_seps.pop())
+    # directories: kinds are fixed by the model (derivative = pair, sub/ses = keyed, modality = bare)
+    kinds = {'derivative': 'pair', 'sub': 'keyed', 'ses': 'keyed', 'modality': 'bare'}
+    need(all(kinds.get(c) == k for c, k, _ in dirs) and len({c for c, _, _ in dirs}) == len(dirs),
+         f'directory components {dirs}')
+    out['f_dir_order'] = enc(','.join(c for c, _, _ in dirs))
+    for c, k, lit in dirs:
+        if k == 'pair':
+            out['f_deriv_dir'] = enc(lit)
+        elif k == 'keyed':
+            out['f_dirkey_' + c] = enc(lit)
+    need(first[1] == 'sub', f'first name segment is {first}')
+    out['f_namekey_sub'] = enc(first[0])
+    need(len({c for c, _ in names}) == len(names), 'entity written twice')
+    out['f_name_order'] = enc(','.join(c for c, _ in names))
+    for c, lit in names:
+        out['f_namekey_' + c] = enc(lit)
+    return out
+
+
+LOOKUPS = {'meta': 'find_meta_for', 'events': 'find_events_for',
+           'table': 'find_table_sibling_of', 'mri': 'find_mri_sibling_of'}
+
+
+def bids_lookup(func):
+    fn = _func('io/bids.py', func, 'BidsLayout')
+    calls = [n for n in ast.walk(fn) if isinstance(n, ast.Call) and u(n.func) == 'self._replace']
+    need(len(calls) == 1 and len(calls[0].args) == 2 and u(calls[0].args[0]) == 'base'
+         and not calls[0].keywords, f'{func}: one self._replace(base, dict(...)) call')
+    d = calls[0].args[1]
+    need(isinstance(d, ast.Call) and u(d.func) == 'dict' and not d.args, f'{func}: dict(...) argument')
+    params = [a.arg for a in fn.args.args]
+    codes = {k: 0 for k in ALL_ENTS}
+    for kw in d.keywords:
+        need(kw.arg in codes and codes[kw.arg] == 0, f'{func}: key {kw.arg}')
+        v = kw.value
+        if isinstance(v, ast.Constant) and v.value is None:
+            need(kw.arg not in ('suffix', 'ext'), f'{func}: {kw.arg}=None')
+            codes[kw.arg] = 2
+        elif isinstance(v, ast.Name) and v.id in ('desc', 'suffix') and v.id in params:
+            codes[kw.arg] = 3 if v.id == 'desc' else 4
+        else:
+            s = const(v, str)
+            need(s != '', 'empty literal')
+            codes[kw.arg] = enc(s)
+    # the file found is constructed from exactly that path
+    rets = [n for n in ast.walk(fn) if isinstance(n, ast.Return)]
+    need(len(rets) == 1 and isinstance(rets[0].value, ast.Call) and u(rets[0].value.args[0]) == 'fpath'
+         and u(rets[0].value.args[1]) == 'self', f'{func}: return <File>(fpath, self, ...)')
+    return codes
+
+
+def bids_table_key():
+    fn = _func('io/bids.py', 'find_table_key_for', 'BidsLayout')
+    st = _body(fn)
+    need(len(st) == 3, 'find_table_key_for has three statements')
+    need(isinstance(st[0], ast.Assign) and u(st[0].targets[0]) == 'path_segs', 'first statement')
+    v = st[0].value
+    need(isinstance(v, ast.IfExp) and u(v.test) == 'base.derivative' and u(v.orelse) == '[]'
+         and isinstance(v.body, ast.List) and len(v.body.elts) == 2
+         and u(v.body.elts[1]) == 'base.derivative', 'derivative directory of the key file')
+    out = {'tk_deriv_dir': enc(const(v.body.elts[0], str))}
+    need(isinstance(st[1], ast.AugAssign) and u(st[1].target) == 'path_segs'
+         and isinstance(st[1].value, ast.List) and len(st[1].value.elts) == 1, 'second statement')
+    p = fstring_parts(st[1].value.elts[0])
+    need([k for k, _ in p] == ['lit', 'var', 'lit', 'var', 'lit']
+         and p[1][1] == 'base.desc' and p[3][1] == 'base.suffix', f'key file name {p}')
+    out.update(tk_pre=enc(p[0][1]), tk_mid=enc(p[2][1]), tk_post=enc(p[4][1]))
+    need(u(st[2]) == 'return BidsTableFile(join(*path_segs), self)', 'return statement')
+    return out
+
+
+def bids_derivative_files():
+    fn = _func('io/bids.py', 'find_mri_derivative_files', 'BidsLayout')
+    src = u(fn)
+    out = {}
+    asg = [n for n in ast.walk(fn) if isinstance(n, ast.Assign) and u(n.targets[0]) == 'deriv_dir']
+    need(len(asg) == 1 and u(asg[0].value.func) == 'join' and len(asg[0].value.args) == 3
+         and u(asg[0].value.args[0]) == 'self._path' and u(asg[0].value.args[2]) == 'derivative',
+         'deriv_dir = join(self._path, <dir>, derivative)')
+    out['df_deriv_dir'] = enc(const(asg[0].value.args[1], str))
+    globs = [n for n in ast.walk(fn) if isinstance(n, ast.Call) and u(n.func) == 'glob']
+    need(len(globs) == 1 and u(globs[0]).startswith("glob(join(deriv_dir, '**', ")
+         and u(globs[0]).endswith('), recursive=True)'), 'glob call')
+    pat = const(globs[0].args[0].args[2], str)
+    need(pat.endswith('*') and '*' not in pat[:-1] and len(pat) > 1, f'glob pattern {pat}')
+    out['df_glob_prefix'] = enc(pat[:-1])
+    need('fpaths = sorted(glob(' in src, 'candidates are not sorted')
+    comps = [n for n in ast.walk(fn) if isinstance(n, ast.ListComp)]
+    tests = {}
+    for c in comps:
+        if len(c.generators) == 1 and len(c.generators[0].ifs) == 1 and u(c.elt) == 'f':
+            t = c.generators[0].ifs[0]
+            tests[u(c.generators[0].iter) + '|' + u(t)] = t
+    desc = [t for k, t in tests.items() if isinstance(t, ast.Compare) and isinstance(t.ops[0], ast.In)
+            and 'desc' in u(t.left)]
+    task = [t for k, t in tests.items() if isinstance(t, ast.Compare) and isinstance(t.ops[0], ast.In)
+            and 'task' in u(t.left)]
+    meta = [t for k, t in tests.items() if isinstance(t, ast.UnaryOp) and isinstance(t.op, ast.Not)]
+    need(len(desc) == 1 and len(task) == 1 and len(meta) == 1 and len(tests) == 3,
+         f'filters: {list(tests)}')
+    p = fstring_parts(desc[0].left)
+    need(len(p) == 2 and p[0][0] == 'lit' and p[1] == ('var', 'desc') and u(desc[0].comparators[0]) == 'f',
+         f'desc filter {p}')
+    out['df_desc_pre'] = enc(p[0][1])
+    p = fstring_parts(task[0].left)
+    need(len(p) == 2 and p[0][0] == 'lit' and p[1] == ('var', 'task') and u(task[0].comparators[0]) == 'f',
+         f'task filter {p}')
+    out['df_task_pre'] = enc(p[0][1])
+    _, a = method_call(meta[0].operand, obj='f', name='endswith', nargs=1)
+    out['df_meta_ext'] = enc(const(a[0], str))
+    return out
+
+
+# ------------------------------------------------------------------ fMRIPrep
+
+def fmriprep_constants():
+    out = {}
+    fn = _func('io/fmriprep.py', 'find_fmriprep_runs')
+    calls = [n for n in ast.walk(fn) if isinstance(n, ast.Call)
+             and u(n.func) == 'bids.find_mri_derivative_files']
+    need(len(calls) == 1 and not calls[0].args, 'find_mri_derivative_files(keyword arguments)')
+    kw = {k.arg: k.value for k in calls[0].keywords}
+    need(sorted(kw) == ['derivative', 'desc', 'tasks'] and u(kw['tasks']) == 'tasks', f'keywords {sorted(kw)}')
+    out['fp_derivative'] = enc(const(kw['derivative'], str))
+    out['fp_desc'] = enc(const(kw['desc'], str))
+
+    def sibling(func, method):
+        f = _func('io/fmriprep.py', func, 'FmriprepRun')
+        cs = [n for n in ast.walk(f) if isinstance(n, ast.Call) and u(n.func) == 'self.boldFile.' + method]
+        need(len(cs) == 1 and not cs[0].args, f'{func}: one {method}(desc=, suffix=) call')
+        k = {x.arg: x.value for x in cs[0].keywords}
+        need(sorted(k) == ['desc', 'suffix'], f'{func}: keywords {sorted(k)}')
+        return enc(const(k['desc'], str)), enc(const(k['suffix'], str))
+    out['fp_mask_desc'], out['fp_mask_suffix'] = sibling('get_mask', 'get_mri_sibling')
+    out['fp_conf_desc'], out['fp_conf_suffix'] = sibling('get_confounds', 'get_table_sibling')
+    a = sibling('get_parcellation', 'get_mri_sibling')
+    b = sibling('get_parcellation_labels', 'get_mri_sibling')
+    need(a == b, 'parcellation and its labels come from different files')
+    out['fp_parc_desc'], out['fp_parc_suffix'] = a
+    # default confound names
+    f = _func('io/fmriprep.py', 'get_confounds', 'FmriprepRun')
+    asg = [n for n in ast.walk(f) if isinstance(n, ast.Assign) and u(n.targets[0]) == 'cf_names']
+    need(len(asg) == 1 and isinstance(asg[0].value, ast.BoolOp) and isinstance(asg[0].value.op, ast.Or)
+         and u(asg[0].value.values[0]) == 'cf_names' and isinstance(asg[0].value.values[1], ast.List),
+         'cf_names = cf_names or [...]')
+    names = [const(e, str) for e in asg[0].value.values[1].elts]
+    need(all(',' not in n for n in names), 'comma in a confound name')
+    out['fp_conf_default'] = enc(','.join(names))
+    rets = [n for n in ast.walk(f) if isinstance(n, ast.Return)]
+    need(len(rets) == 1 and u(rets[0].value) == 'df[cf_names]', 'return df[cf_names]')
+    # dataset descriptors: key, attribute, guard
+    f = _func('io/fmriprep.py', 'get_dataset_descriptors', 'FmriprepRun')
+    st = _body(f)
+    need(u(st[0]) == 'ds_descs = dict()' and u(st[-1]) == 'return ds_descs', 'frame of get_dataset_descriptors')
+    order = []
+
+    def assign(s):
+        need(isinstance(s, ast.Assign) and isinstance(s.targets[0], ast.Subscript)
+             and u(s.targets[0].value) == 'ds_descs' and u(s.value).startswith('self.boldFile.'),
+             f'descriptor assignment: {u(s)}')
+        return const(s.targets[0].slice, str), u(s.value)[len('self.boldFile.'):]
+    for s in st[1:-1]:
+        if isinstance(s, ast.If):
+            need(not s.orelse and len(s.body) == 1 and u(s.test).startswith('self.boldFile.'),
+                 f'guard: {u(s.test)}')
+            key, attr = assign(s.body[0])
+            guard = u(s.test)[len('self.boldFile.'):]
+        else:
+            key, attr = assign(s)
+            guard = ''
+        need(key not in [k for k, _, _ in order], f'descriptor {key} twice')
+        order.append((key, attr, guard))
+    out['dd_order'] = enc(','.join(k for k, _, _ in order))
+    out['dd_attrs'] = enc(','.join(a for _, a, _ in order))
+    out['dd_guards'] = enc(','.join(g for _, _, g in order))
+    return out
+
+
+# ------------------------------------------------------------------ MNE
+
+def mne_descriptors():
+    fn = _func('io/mne.py', 'descriptors_from_bids_filename')
+    st = _body(fn)
+    need(len(st) == 3 and u(st[0]) == 'descs = dict()' and u(st[2]) == 'return descs', 'frame')
+    outer = st[1]
+    need(isinstance(outer, ast.For) and u(outer.target) == 'dname' and isinstance(outer.iter, ast.List)
+         and not outer.orelse and len(outer.body) == 1, 'outer loop over the descriptor names')
+    keys = [const(e, str) for e in outer.iter.elts]
+    inner = outer.body[0]
+    need(isinstance(inner, ast.For) and u(inner.target) == 'segment' and not inner.orelse
+         and len(inner.body) == 1, 'inner loop over the segments')
+    _, a = method_call(inner.iter, obj='fname', name='split', nargs=1)
+    out = {'m_keys': enc(','.join(keys)), 'm_seg_sep': ch(const(a[0], str))}
+    iff = inner.body[0]
+    need(isinstance(iff, ast.If) and not iff.orelse and len(iff.body) == 1, 'if in the inner loop')
+    _, t = method_call(iff.test, obj='segment', name='startswith', nargs=1)
+    need(isinstance(t[0], ast.BinOp) and isinstance(t[0].op, ast.Add) and u(t[0].left) == 'dname',
+         'startswith(dname + <sep>)')
+    out['m_key_sep'] = ch(const(t[0].right, str))
+    asg = iff.body[0]
+    need(isinstance(asg, ast.Assign) and u(asg.targets[0]) == 'descs[dname]'
+         and u(asg.value.value) == 'segment', 'descs[dname] = segment[k:]')
+    return out
+
+
+# ------------------------------------------------------------------ Meadows, SPM (indices, separators)
+
+def meadows_segments():
+    fn = _func('io/meadows.py', 'extract_filename_segments')
+    st = _body(fn)
+    out = {}
+    need(isinstance(st[0], ast.Assign) and u(st[0].targets[0]) == '(fname, ext)', 'fname, ext = ...')
+    bo, a = method_call(st[0].value, name='split', nargs=1)
+    need(u(bo) == 'basename(fpath)', 'basename(fpath).split')
+    out['md_ext_sep'] = ch(const(a[0], str))
+    need(isinstance(st[1], ast.Assign) and u(st[1].targets[0]) == 'segments', 'segments = ...')
+    _, a = method_call(st[1].value, obj='fname', name='split', nargs=1)
+    out['md_seg_sep'] = ch(const(a[0], str))
+    need(isinstance(st[2], ast.Assign) and u(st[2].targets[0]) == 'info' and u(st[2].value.func) == 'dict',
+         'info = dict(...)')
+    kw = {k.arg: k.value for k in st[2].value.keywords}
+    need(sorted(kw) == ['experiment_name', 'filetype', 'structure', 'version'] and u(kw['filetype']) == 'ext',
+         f'info keys {sorted(kw)}')
+    vo, va = method_call(kw['version'], name='replace', nargs=2)
+    need(u(vo.value) == 'segments' and const(va[1], str) == '', 'version = segments[k].replace(c, "")')
+    out['md_version_idx'] = index_of(vo)
+    out['md_version_strip'] = ch(const(va[0], str))
+    out['md_exp_idx'] = index_of(kw['experiment_name'])
+    need(index_of(kw['structure']) < 0, 'structure index')
+    out['md_struct_back'] = -index_of(kw['structure'])
+    iff = st[3]
+    need(isinstance(iff, ast.If) and len(iff.orelse) == 1 and isinstance(iff.orelse[0], ast.If),
+         'if / elif / else on the last-but-one segment')
+    eli = iff.orelse[0]
+    d, _ = method_call(iff.test, name='isdigit', nargs=0)
+    need(u(d.value) == 'segments', 'isdigit on a segment')
+    p = eli.test
+    need(isinstance(p, ast.Call) and u(p.func) == 'is_petname' and len(p.args) == 1
+         and u(p.args[0].value) == 'segments', 'is_petname on a segment')
+    out['md_digit_back'] = -index_of(d)
+    out['md_pet_back'] = -index_of(p.args[0])
+
+    def assigns(body):
+        r = {}
+        for s in body:
+            need(isinstance(s, ast.Assign) and isinstance(s.targets[0], ast.Subscript)
+                 and u(s.targets[0].value) == 'info', f'info[...] = ...: {u(s)}')
+            r[const(s.targets[0].slice, str)] = s.value
+        return r
+    b1, b2, b3 = assigns(iff.body), assigns(eli.body), assigns(eli.orelse)
+    need(sorted(b1) == ['participant', 'participant_scope', 'task_index', 'task_scope']
+         and sorted(b2) == ['participant', 'participant_scope', 'task_scope']
+         and sorted(b3) == ['participant_scope', 'task_name', 'task_scope'], 'keys of the three branches')
+    scopes = [const(b['task_scope'], str) + '/' + const(b['participant_scope'], str) for b in (b1, b2, b3)]
+    need(scopes == ['single/single', 'multiple/single', 'single/multiple'], f'scopes {scopes}')
+    out['md_a_participant_back'] = -index_of(b1['participant'])
+    ti = b1['task_index']
+    need(isinstance(ti, ast.Call) and u(ti.func) == 'int' and len(ti.args) == 1, 'task_index = int(...)')
+    out['md_a_index_back'] = -index_of(ti.args[0])
+    out['md_b_participant_back'] = -index_of(b2['participant'])
+    out['md_c_task_back'] = -index_of(b3['task_name'])
+    # is_petname
+    fn = _func('io/meadows.py', 'is_petname')
+    src = [u(s) for s in _body(fn)]
+    need(len(src) == 2 and src[1] == 'return False', 'is_petname frame')
+    i1 = _body(fn)[0]
+    need(isinstance(i1, ast.If) and not i1.orelse and isinstance(i1.test, ast.Compare)
+         and isinstance(i1.test.ops[0], ast.In) and u(i1.test.comparators[0]) == 'segment', 'sep in segment')
+    sep = const(i1.test.left, str)
+    need(len(i1.body) == 2, 'is_petname body')
+    _, a = method_call(i1.body[0].value, obj='segment', name='split', nargs=1)
+    need(const(a[0], str) == sep, 'split on another separator')
+    out['md_pet_sep'] = ch(sep)
+    i2 = i1.body[1]
+    need(isinstance(i2, ast.If) and u(i2.test.left) == 'len(parts)' and isinstance(i2.test.ops[0], ast.Eq),
+         'len(parts) == k')
+    out['md_pet_parts'] = const(i2.test.comparators[0], int)
+    i3 = i2.body[0]
+    need(isinstance(i3, ast.If) and isinstance(i3.test.ops[0], ast.In)
+         and u(i3.test.comparators[0]) == 'PETNAMES' and u(i3.body[0]) == 'return True', 'parts[k] in PETNAMES')
+    out['md_pet_idx'] = index_of(i3.test.left)
+    return out
+
+
+def meadows_loader():
+    """load_rdms / load_rdms_comps_mat / load_rdms_comps_json: variable names, key names, the
+    participant <-> variable name mapping, the stem of a stimulus name"""
+    out = {}
+    fn = _func('io/meadows.py', 'load_rdms')
+    comps = [n for n in ast.walk(fn) if isinstance(n, ast.ListComp) and u(n.generators[0].iter) == 'stimuli']
+    need(len(comps) == 1 and u(comps[0].generators[0].target) == 'f' and not comps[0].generators[0].ifs,
+         'conds = [... for f in stimuli]')
+    out['ml_stem_idx'] = index_of(comps[0].elt)
+    _, a = method_call(comps[0].elt.value, obj='f', name='split', nargs=1)
+    out['ml_stem_sep'] = ch(const(a[0], str))
+    keys = [const(n.targets[0].slice, str) for n in ast.walk(fn) if isinstance(n, ast.Assign)
+            and isinstance(n.targets[0], ast.Subscript) and u(n.targets[0].value) == 'rdm_descriptors']
+    out['ml_rdm_keys'] = enc(','.join(keys))
+    need('if sort:\n        rdms.sort_by(conds=\'alpha\')' in u(fn), 'sort on request')
+    fn = _func('io/meadows.py', 'load_rdms_comps_mat')
+    loops = [n for n in ast.walk(fn) if isinstance(n, ast.For) and u(n.target) == 'var']
+    need(len(loops) == 1 and isinstance(loops[0].iter, ast.Tuple), 'for var in (...)')
+    out['ml_single_vars'] = enc(','.join(const(e, str) for e in loops[0].iter.elts))
+    asg = {u(n.targets[0]): n.value for n in ast.walk(fn) if isinstance(n, ast.Assign)}
+    need(u(asg['utvs']).startswith('numpy.stack([data[v] for v in utv_vars])'), 'utvs of the multi-participant file')
+    sv = asg['stim_vars']
+    need(isinstance(sv, ast.ListComp) and u(sv.generators[0].iter) == 'data.keys()'
+         and len(sv.generators[0].ifs) == 1, 'stim_vars comprehension')
+    t = sv.generators[0].ifs[0]
+    need(isinstance(t, ast.Compare) and isinstance(t.ops[0], ast.Eq), 'v[:k] == <prefix>')
+    lo, hi = slice_of(t.left)
+    need(lo is None and hi is not None, 'v[:k]')
+    out['ml_stim_prefix_len'] = hi
+    out['ml_stim_prefix'] = enc(const(t.comparators[0], str))
+    need(u(asg['stimuli']) == 'data[stim_vars[0]]' or 'stim_vars[0]' in u(fn), 'stimuli of the first participant')
+    pn = asg['pnames']
+    need(isinstance(pn, ast.ListComp) and u(pn.generators[0].iter) == 'stim_vars', 'pnames comprehension')
+    jo, ja = method_call(pn.elt, name='join', nargs=1)
+    out['ml_pname_join'] = ch(const(jo, str))
+    lo, hi = slice_of(ja[0])
+    need(hi is None and lo is not None, 'split[k:]')
+    out['ml_pname_from'] = lo
+    _, a = method_call(ja[0].value, obj='v', name='split', nargs=1)
+    out['ml_pname_split'] = ch(const(a[0], str))
+    uv = asg['utv_vars']
+    need(isinstance(uv, ast.ListComp) and u(uv.generators[0].iter) == 'pnames'
+         and isinstance(uv.elt, ast.BinOp) and isinstance(uv.elt.op, ast.Add), 'utv_vars comprehension')
+    out['ml_utv_prefix'] = enc(const(uv.elt.left, str))
+    _, a = method_call(uv.elt.right, obj='p', name='replace', nargs=2)
+    out['ml_utv_from'] = ch(const(a[0], str))
+    out['ml_utv_to'] = ch(const(a[1], str))
+    fn = _func('io/meadows.py', 'load_rdms_comps_json')
+    src = u(fn).replace('(t, task)', 't, task')
+    for frag in ("for t, task in enumerate(data['tasks']):", "task_meta = task.get('task', {})",
+                 "if task_meta.get('task_type') != 'multiarrange':", "[s['name'] for s in task['stimuli']]",
+                 "utvs.append(task['rdm'])", "tnames.append(task_meta['name'])", 'tidx.append(t)',
+                 'if len(utvs) == 0:', 'stimuli != task_stimuli:'):
+        need(frag in src, f'json loader: `{frag}` not found')
+    out['ml_json_type'] = enc('multiarrange')
+    return out
+
+
+def spm_constants():
+    out = {}
+    fn = _func('io/spm.py', 'get_info_from_spm_mat', 'SpmGlm')
+    loops = [n for n in ast.walk(fn) if isinstance(n, ast.For) and u(n.target) == 'reg_name']
+    need(len(loops) == 1 and len(loops[0].body) == 3, 'loop over the regressor names')
+    a, b, c = loops[0].body
+    _, sa = method_call(a.value, obj='reg_name', name='split', nargs=1)
+    need(u(a.targets[0]) == 's', 's = reg_name.split(sep)')
+    out['sp_name_sep'] = ch(const(sa[0], str))
+    _, ra = method_call(b.value, obj='self.run_number', name='append', nargs=1)
+    need(u(ra[0].func) == 'int' and len(ra[0].args) == 1, 'run number is int(...)')
+    sl = ra[0].args[0]
+    lo, hi = slice_of(sl)
+    need(lo is not None and lo >= 0 and hi is not None and hi < 0 and u(sl.value.value) == 's',
+         'run number slice')
+    out['sp_run_tok'] = index_of(sl.value)
+    out['sp_run_lo'] = lo
+    out['sp_run_hi_back'] = -hi
+    _, na = method_call(c.value, obj='self.beta_names', name='append', nargs=1)
+    need(u(na[0].value) == 's', 'beta name is a token of s')
+    out['sp_name_tok'] = index_of(na[0])
+    fn = _func('io/spm.py', 'relocate_file', 'SpmGlm')
+    st = [u(s) for s in _body(fn)]
+    need(len(st) == 4, 'relocate_file has four statements')
+    b = _body(fn)
+    _, r1 = method_call(b[0].value, obj='fpath', name='replace', nargs=2)
+    _, r2 = method_call(b[1].value, obj='dirname(self.path)', name='replace', nargs=2)
+    need((const(r1[0], str), const(r1[1], str)) == (const(r2[0], str), const(r2[1], str)),
+         'path and base are normalised differently')
+    out['sp_reloc_from'] = ch(const(r1[0], str))
+    out['sp_reloc_to'] = ch(const(r1[1], str))
+    _, f = method_call(b[2].value, obj='norm_fpath', name='find', nargs=1)
+    out['sp_reloc_anchor'] = enc(const(f[0], str))
+    need(st[3] == "return base_path + '/' + norm_fpath[c:]", f'return statement: {st[3]}')
+    return out
+
+
+def hrf_table():
+    """io/hrf.py: `HRF = numpy.array([<decimal literals>])`.  Every literal is read as the decimal
+    fraction that is written (multiples of 1e-7); value i is stored as (v·1e7 + 2^19) in bits
+    20·i … 20·i+19 of one natural number, behind a leading 1."""
+    from fractions import Fraction
+    tree = _tree('io/hrf.py')
+    hits = [n for n in tree.body if isinstance(n, ast.Assign) and u(n.targets[0]) == 'HRF']
+    need(len(hits) == 1 and isinstance(hits[0].value, ast.Call)
+         and u(hits[0].value.func) in ('numpy.array', 'np.array') and len(hits[0].value.args) == 1
+         and isinstance(hits[0].value.args[0], ast.List) and not hits[0].value.keywords,
+         'HRF = numpy.array([...])')
+    lines = open(os.path.join(SRC, 'io/hrf.py')).read()
+    code = 1
+    vals = []
+    for e in hits[0].value.args[0].elts:
+        txt = ast.get_source_segment(lines, e)
+        try:
+            v = Fraction(txt.replace(' ', '')) * 10 ** 7
+        except (ValueError, ZeroDivisionError):
+            raise Underivable(f'entry `{txt}` is not a decimal literal')
+        need(v.denominator == 1 and abs(v) < 2 ** 19, f'entry `{txt}` is not a multiple of 1e-7 below 0.05')
+        vals.append(int(v))
+    need(0 < len(vals) <= 2000, 'table length')
+    for v in reversed(vals):
+        code = code * 2 ** 20 + (v + 2 ** 19)
+    return {'hrf_table_code': code}
+
+
+# ------------------------------------------------------------------ write the derived file
+
+def _derive():
+    out = ['# DERIVED by harness/leaves/C20.py from the source tree under check - do not edit', '']
+    leaves = []
+
+    def emit_group(names, fn):
+        """one derivation yielding several named integers"""
+        try:
+            vals = fn()
+            missing = [n for n in names if n not in vals]
+            if missing or len(vals) != len(names):
+                raise Underivable(f'derivation yields {sorted(vals)} instead of {sorted(names)}')
+            bodies = {n: repr(int(vals[n])) for n in names}
+        except Exception as exc:  # noqa: BLE001  (fail closed: any surprise = underivable)
+            bodies = {n: '__underivable__(' + repr(str(exc)[:200]) + ')' for n in names}
+        for n in names:
+            out.extend([f'def {n}():', f'    return {bodies[n]}', ''])
+            leaves.append(dict(name=_camel(n), file=DERIVED, func=n, kind='func', params={}, ret='Nat'))
+
+    def emit_expr(name, params, fn, ret='A'):
+        try:
+            body = fn()
+        except Exception as exc:  # noqa: BLE001
+            body = '__underivable__(' + repr(str(exc)[:200]) + ')'
+        out.extend([f'def {name}({", ".join(params)}):', f'    return {body}', ''])
+        leaves.append(dict(name=_camel(name), file=DERIVED, func=name, kind='func',
+                           params=dict(params), ret=ret))
+
+    emit_expr('vol_time', {'i': 'A', 'tr': 'A', 'n_vols': 'A'},
+              lambda: linspace_entry('io/fmriprep.py', 'make_design_matrix', 'all_times', 'i'))
+    emit_expr('hrf_time', {'j': 'A', 'tr': 'A', 'len_hrf': 'A'},
+              lambda: linspace_entry('io/fmriprep.py', 'make_design_matrix', 'hrf_times', 'j',
+                                     {'len(hrf)': 'len_hrf'}))
+    emit_expr('mne_slice_start', {'len_dname': 'Nat'}, mne_slice_start, ret='Nat')
+
+    emit_group(['hrf_table_code'], hrf_table)
+    emit_group(['p_seg_sep', 'p_key_sep'], bids_find_entity)
+    emit_group(['p_deriv_dir', 'p_deriv_idx', 'p_deriv_skip', 'p_mod_minlen', 'p_mod_idx_ses',
+                'p_mod_idx', 'p_sfx_seg_sep', 'p_ext_sep'] + ['p_key_' + k for k in ENT_KEYS],
+               bids_deconstruct)
+    emit_group(['f_seg_sep', 'f_ext_sep', 'f_key_sep', 'f_dir_order', 'f_deriv_dir', 'f_dirkey_sub',
+                'f_dirkey_ses', 'f_namekey_sub', 'f_name_order'] +
+               ['f_namekey_' + k for k in ('ses', 'task', 'run', 'space', 'desc')], bids_replace)
+    for short, func in LOOKUPS.items():
+        emit_group([f'lk_{short}_{e}' for e in ALL_ENTS],
+                   lambda func=func, short=short: {f'lk_{short}_{e}': c
+                                                   for e, c in bids_lookup(func).items()})
+    emit_group(['tk_deriv_dir', 'tk_pre', 'tk_mid', 'tk_post'], bids_table_key)
+    emit_group(['df_deriv_dir', 'df_glob_prefix', 'df_desc_pre', 'df_task_pre', 'df_meta_ext'],
+               bids_derivative_files)
+    emit_group(['fp_derivative', 'fp_desc', 'fp_mask_desc', 'fp_mask_suffix', 'fp_conf_desc',
+                'fp_conf_suffix', 'fp_parc_desc', 'fp_parc_suffix', 'fp_conf_default',
+                'dd_order', 'dd_attrs', 'dd_guards'], fmriprep_constants)
+    emit_group(['m_keys', 'm_seg_sep', 'm_key_sep'], mne_descriptors)
+    emit_group(['md_ext_sep', 'md_seg_sep', 'md_version_idx', 'md_version_strip', 'md_exp_idx',
+                'md_struct_back', 'md_digit_back', 'md_pet_back', 'md_a_participant_back',
+                'md_a_index_back', 'md_b_participant_back', 'md_c_task_back', 'md_pet_sep',
+                'md_pet_parts', 'md_pet_idx'], meadows_segments)
+    emit_group(['ml_stem_idx', 'ml_stem_sep', 'ml_rdm_keys', 'ml_single_vars', 'ml_stim_prefix_len',
+                'ml_stim_prefix', 'ml_pname_join', 'ml_pname_from', 'ml_pname_split', 'ml_utv_prefix',
+                'ml_utv_from', 'ml_utv_to', 'ml_json_type'], meadows_loader)
+    emit_group(['sp_name_sep', 'sp_run_tok', 'sp_run_lo', 'sp_run_hi_back', 'sp_name_tok',
+                'sp_reloc_from', 'sp_reloc_to', 'sp_reloc_anchor'], spm_constants)
+
+    text = '\n'.join(out)
+    if not (os.path.exists(DERIVED) and open(DERIVED).read() == text):
+        with open(DERIVED + '.tmp', 'w') as f:
+            f.write(text)
+        os.replace(DERIVED + '.tmp', DERIVED)
+    return leaves
+
+
+def _camel(name):
+    parts = name.split('_')
+    return parts[0] + ''.join(p[:1].upper() + p[1:] for p in parts[1:])
+
+
 _DM = 'io/fmriprep.py'
 LEAVES = [
     # make_design_matrix — `dof = n_vols - dm.shape[1]`
@@ -20,4 +895,4 @@ LEAVES = [
          target='indx', count=1, params={'self_reg_of_interest': 'Int'}, ret='Int'),
     dict(name='regIndexResiduals', file='io/spm.py', func='get_residuals', kind='assign',
          target='indx', count=1, params={'self_reg_of_interest': 'Int'}, ret='Int'),
-]
+] + _derive()
